@@ -7,6 +7,8 @@ package main
 import (
 	"bytes"
 	"context"
+	"crypto/sha256"
+	"encoding/hex"
 	"errors"
 	"fmt"
 	"os"
@@ -179,6 +181,34 @@ func bkNewStore(work, name string) (desync.LocalStore, string, error) {
 		return desync.LocalStore{}, "", err
 	}
 	s, err := desync.NewLocalStore(dir, desync.StoreOptions{})
+	return s, dir, err
+}
+
+// bkCachedStore returns a LocalStore under work/cache/<key>, populated once by fill. For stores that the
+// operation under test only reads (Copy's source, the chunk store of AssembleFile / UnTarIndex).
+func bkCachedStore(work, key string, fill func(s desync.LocalStore) error) (desync.LocalStore, string, error) {
+	sum := sha256.Sum256([]byte(key))
+	dir := filepath.Join(work, "cache", hex.EncodeToString(sum[:8]))
+	if _, err := os.Stat(dir); err == nil {
+		s, err := desync.NewLocalStore(dir, desync.StoreOptions{})
+		return s, dir, err
+	}
+	tmp := dir + ".tmp"
+	os.RemoveAll(tmp)
+	if err := os.MkdirAll(tmp, 0755); err != nil {
+		return desync.LocalStore{}, "", err
+	}
+	s, err := desync.NewLocalStore(tmp, desync.StoreOptions{})
+	if err != nil {
+		return s, "", err
+	}
+	if err := fill(s); err != nil {
+		return s, "", err
+	}
+	if err := os.Rename(tmp, dir); err != nil {
+		return s, "", err
+	}
+	s, err = desync.NewLocalStore(dir, desync.StoreOptions{})
 	return s, dir, err
 }
 
